@@ -336,9 +336,17 @@ func (fs LocalFileSystem) Copy(ctx context.Context, src, dst string, options *Co
 		if options.NoOverwrite {
 			return false, NewHTTPError(http.StatusPreconditionFailed, os.ErrExist)
 		}
-		if err := os.RemoveAll(dstPath); err != nil {
-			return false, errFromOS(err)
-		}
+	}
+
+	// An existing destination is only replaced once the copy is complete:
+	// the copy is built next to it and swapped in at the end, so that a copy
+	// which fails half-way (an unreadable member, a full disk) leaves the
+	// destination as it was. A new destination is built in place and removed
+	// again on failure.
+	target := dstPath
+	if !created {
+		seq := atomic.AddUint64(&uploadSeq, 1)
+		target = filepath.Join(filepath.Dir(dstPath), fmt.Sprintf(".webdav-copy-%d-%d", os.Getpid(), seq))
 	}
 
 	err = filepath.Walk(srcPath, func(p string, fi os.FileInfo, err error) error {
@@ -347,12 +355,12 @@ func (fs LocalFileSystem) Copy(ctx context.Context, src, dst string, options *Co
 		}
 
 		// p is the walked entry below srcPath: copy it to the same
-		// relative location below dstPath
+		// relative location below the target
 		rel, err := filepath.Rel(srcPath, p)
 		if err != nil {
 			return err
 		}
-		dst := filepath.Join(dstPath, rel)
+		dst := filepath.Join(target, rel)
 		perm := fi.Mode() & os.ModePerm
 
 		if fi.IsDir() {
@@ -371,7 +379,24 @@ func (fs LocalFileSystem) Copy(ctx context.Context, src, dst string, options *Co
 		return nil
 	})
 	if err != nil {
+		os.RemoveAll(target)
 		return false, errFromOS(err)
+	}
+
+	if !created {
+		// swap: set the old destination aside, move the copy in, and only
+		// then remove the old destination (best effort)
+		aside := target + "-replaced"
+		if err := os.Rename(dstPath, aside); err != nil {
+			os.RemoveAll(target)
+			return false, errFromOS(err)
+		}
+		if err := os.Rename(target, dstPath); err != nil {
+			os.Rename(aside, dstPath)
+			os.RemoveAll(target)
+			return false, errFromOS(err)
+		}
+		os.RemoveAll(aside)
 	}
 
 	return created, nil
